@@ -70,11 +70,15 @@ func parseUUID(buf []byte) (uuid meta.UUID) {
 
 // parseInt parses a []byte of a string representation of an int64 value and returns the value
 func parseInt(buf []byte) (i int64) {
-	if buf[0] == '-' {
+	neg := false
+	if len(buf) > 0 && (buf[0] == '-' || buf[0] == '+') {
+		neg = buf[0] == '-'
 		buf = buf[1:]
-		i = -1
 	}
-	i *= int64(parseUint(buf))
+	i = int64(parseUint(buf))
+	if neg {
+		i = -i
+	}
 	return
 }
 
